@@ -15,6 +15,7 @@ import math
 from concurrent.futures import ProcessPoolExecutor
 
 import numpy as np
+import pandas as pd
 
 from .. import stages
 from ..common import Check, sha, touch_same_index
@@ -182,6 +183,8 @@ def record(args):
                     det.fit(X0).predict(X0)
                 except RuntimeError:
                     pass
+            if rng.integers(0, 2):
+                Xin = pd.DataFrame(Xin)   # the same numbers in a frame (default index)
             det.fit(Xin)
             if rng.integers(0, 2):
                 touch_same_index(det, Xin)
